@@ -34,3 +34,26 @@ Proof.
   - apply mvmul_zero.
   - fold (vsum xs). rewrite mvmul_add, IH. reflexivity.
 Qed.
+
+(* ---- composition: orthogonality and determinant are multiplicative ---- *)
+Lemma mvmul_mmul A B x : mvmul (mmul A B) x = mvmul A (mvmul B x).
+Proof. vdestruct; vunfold; apply vec_eq; ring. Qed.
+
+Lemma iso_orth M : (forall a b, vdot (mvmul M a) (mvmul M b) = vdot a b) -> orth M.
+Proof.
+  intros H. unfold orth.
+  pose proof (H (1,0,0) (1,0,0)) as H00. pose proof (H (0,1,0) (0,1,0)) as H11.
+  pose proof (H (0,0,1) (0,0,1)) as H22. pose proof (H (1,0,0) (0,1,0)) as H01.
+  pose proof (H (1,0,0) (0,0,1)) as H02. pose proof (H (0,1,0) (0,0,1)) as H12.
+  clear H. vdestruct; vunfold.
+  repeat split; nsatz.
+Qed.
+
+Lemma orth_mmul A B : orth A -> orth B -> orth (mmul A B).
+Proof.
+  intros HA HB. apply iso_orth. intros a b.
+  rewrite !mvmul_mmul, (orth_isometry A) by exact HA. apply orth_isometry; exact HB.
+Qed.
+
+Lemma mdet_mmul A B : mdet (mmul A B) = mdet A * mdet B.
+Proof. vdestruct; vunfold; ring. Qed.
